@@ -18,6 +18,7 @@ import (
 	"math/big"
 	"net"
 	"sync"
+	"sync/atomic"
 	"testing"
 	"time"
 
@@ -104,6 +105,7 @@ func runDialerCase(w *vh.Writer, ci int, plan faultPlan, cert tls.Certificate) (
 	}
 	defer ln.Close()
 	var conns []net.Conn
+	var openConns atomic.Int32 // connections whose server side has not seen the client go away
 	go func() {
 		for {
 			c, err := ln.Accept()
@@ -120,8 +122,10 @@ func runDialerCase(w *vh.Writer, ci int, plan faultPlan, cert tls.Certificate) (
 			conns = append(conns, c)
 			emit(map[string]any{"ev": "dial", "g": g})
 			mu.Unlock()
+			openConns.Add(1)
 			go func() {
 				s := ttlv.NewStream(c, -1)
+				defer openConns.Add(-1)
 				defer c.Close()
 				bye := func() {
 					if plan.Kind == "reset" {
@@ -151,6 +155,13 @@ func runDialerCase(w *vh.Writer, ci int, plan faultPlan, cert tls.Certificate) (
 					switch pl := req.BatchItem[0].RequestPayload.(type) {
 					case *payloads.DiscoverVersionsRequestPayload:
 						resp.BatchItem = []kmip.ResponseBatchItem{{Operation: kmip.OperationDiscoverVersions, ResponsePayload: &payloads.DiscoverVersionsResponsePayload{ProtocolVersion: []kmip.ProtocolVersion{kmip.V1_4}}}}
+						mu.Lock()
+						refuse := plan.Refuse && g == 2 && st.exch == 1
+						mu.Unlock()
+						if refuse {
+							resp.BatchItem = []kmip.ResponseBatchItem{{Operation: kmip.OperationDiscoverVersions, ResultStatus: kmip.ResultStatusOperationFailed,
+								ResultReason: kmip.ResultReasonPermissionDenied, ResultMessage: "negotiation refused"}}
+						}
 					case *payloads.ActivateRequestPayload:
 						resp.BatchItem = []kmip.ResponseBatchItem{{Operation: kmip.OperationActivate, ResponsePayload: &payloads.ActivateResponsePayload{UniqueIdentifier: pl.UniqueIdentifier}}}
 					default:
@@ -179,7 +190,7 @@ func runDialerCase(w *vh.Writer, ci int, plan faultPlan, cert tls.Certificate) (
 			}()
 		}
 	}()
-	emit(map[string]any{"ev": "case", "pt": plan.Pt, "kind": plan.Kind, "persist": plan.Persist, "exch": plan.Exch, "n": ci, "dialer": "default"})
+	emit(map[string]any{"ev": "case", "pt": plan.Pt, "kind": plan.Kind, "persist": plan.Persist, "exch": plan.Exch, "refuse": plan.Refuse, "n": ci, "dialer": "default"})
 	var cl *kmipclient.Client
 	for e := 1; e <= 4; e++ {
 		mu.Lock()
@@ -251,6 +262,14 @@ func runDialerCase(w *vh.Writer, ci int, plan faultPlan, cert tls.Certificate) (
 	}
 	if cl != nil {
 		_ = cl.Close()
+	}
+	// every connection the client made is its own to close: once it is closed (or never came to exist because Dial failed), no server
+	// is left waiting for it
+	for k := 0; k < 100 && openConns.Load() > 0; k++ {
+		time.Sleep(20 * time.Millisecond)
+	}
+	if n := openConns.Load(); n > 0 {
+		bad("leak:%d connection(s) of the client are still open after Close (abandoned without being closed)", n)
 	}
 	mu.Lock()
 	for _, c := range conns {
